@@ -663,3 +663,38 @@ def _match_group(se, a, kw):
 def _lm(se, a, kw):
     from .types import OBJ
     return V(OBJ("Match"), se.st.ghost["last_match"].t)
+
+
+@specfun("entity_image")
+def _entity_image(se, a, kw):
+    return V(STR, ops.UF("entity_image", z3.StringSort(), z3.StringSort())(a[0].t))
+
+
+@specfun("ascii_bytes")
+def _ascii_bytes(se, a, kw):
+    GLOBAL_AXIOMS["ascii_roundtrip"] = _ascii_axiom()
+    return V(BYTES, ops.UF("ascii_bytes", z3.StringSort(), z3.StringSort())(a[0].t))
+
+
+def _ascii_axiom():
+    s = z3.String("s!ascii")
+    ab = ops.UF("ascii_bytes", z3.StringSort(), z3.StringSort())
+    dec = ops.UF("bytes_decode_e", z3.StringSort(), z3.StringSort(), z3.StringSort(), z3.StringSort())
+    ok = ops.UF("decodable", z3.StringSort(), z3.StringSort(), z3.BoolSort())
+    a = z3.StringVal("ascii")
+    return z3.ForAll([s], z3.And(ok(ab(s), a), dec(ab(s), a, z3.StringVal("strict")) == s), patterns=[ab(s)])
+
+
+@specfun("is_encode_error")
+def _is_encode_error(se, a, kw):
+    return vbool(z3.And(a[0].t != 0, ops.UF("dyn_isinstance_UnicodeEncodeError", z3.IntSort(), z3.BoolSort())(a[0].t)))
+
+
+@specfun("str_strip")
+def _str_strip(se, a, kw):
+    return V(STR, ops.UF("str_strip", z3.StringSort(), z3.StringSort(), z3.StringSort())(a[0].t, z3.StringVal("<ws>")))
+
+
+@specfun("quote_plus")
+def _quote_plus(se, a, kw):
+    return V(STR, ops.UF("quote_plus", z3.StringSort(), z3.StringSort())(a[0].t))
